@@ -267,14 +267,13 @@ Definition is_deleted (l : link) : bool := fmem DELETED_FLAG (lk_flags l).
 
 (** ---- initial store --------------------------------------------------------- *)
 
-(** db.createDefaultMailboxes on a new per-user database: five rows inserted
-    directly (not through CreateMailboxPerUser), each stamped with the clock;
-    table uid_validity_seq has no row yet, so the first CreateMailboxPerUser starts
-    from MAX(uid_validity) of these rows — which is [vhigh] of this store. *)
-Definition init5 (t1 t2 t3 t4 t5 : Z) : store :=
-  mkStore [mkMbox 1 INBOX t1 1; mkMbox 2 (S_ "Sent") t2 1; mkMbox 3 (S_ "Drafts") t3 1;
-           mkMbox 4 (S_ "Trash") t4 1; mkMbox 5 SPAM t5 1]
-          [] 1 []
-          [(INBOX, t1); (S_ "Sent", t2); (S_ "Drafts", t3); (S_ "Trash", t4); (SPAM, t5)] 1.
-Definition init (t : Z) : store := init5 t t t t t.
+(** a new per-user database, and db.createDefaultMailboxes on it: five mailbox
+    rows, each stamped by the allocator (nextUIDValidityPerUser) with its own
+    clock reading — the same steps as five calls of CreateMailboxPerUser *)
 Definition empty_store : store := mkStore [] [] 1 [] [] 1.
+Definition create_or_same (s : store) (n : str) (t : Z) : store :=
+  match create_mailbox_row s n t with Some (s', _) => s' | None => s end.
+Definition init5 (t1 t2 t3 t4 t5 : Z) : store :=
+  create_or_same (create_or_same (create_or_same (create_or_same (create_or_same empty_store
+    INBOX t1) (S_ "Sent") t2) (S_ "Drafts") t3) (S_ "Trash") t4) SPAM t5.
+Definition init (t : Z) : store := init5 t t t t t.
